@@ -905,7 +905,7 @@ class AstToCfg(ast.NodeVisitor):
 
     if node.type is not None:
       self.visit(node.type)
-    if node.name is not None:
+    if isinstance(node.name, ast.AST):
       self.visit(node.name)
 
     for stmt in node.body:
